@@ -628,6 +628,52 @@ func propC03(r *Run) {
 				r.fail(Failure{Oracle: "slice: coordinates stay inside the window", Op: line, Got: encLoc(f.Loc)})
 			}
 		}
+		// the spelling of the window does not matter: "negative indices counting from the end"
+		// denote the same window as the non-negative ones, so the whole result (residues,
+		// features with their markers, order) is the same (seeded change C03-i: a negative end
+		// took the wrap-around path and lost partial markers while the denotation stayed right)
+		if a != aa || b != bb {
+			r.count("seq.slice/negative-spelling")
+			canon := gts.Slice(copySeq(s), aa, bb)
+			if encSeq(res) != encSeq(canon) {
+				r.fail(Failure{Oracle: "slice: a window spelled with negative indices is the window spelled with the non-negative ones", Op: line,
+					Got: encSeq(res), Want: fmt.Sprintf("Slice(%d,%d) = %s", aa, bb, encSeq(canon))})
+			}
+		}
+		// markers of a sliced feature: a range in a forward window gets a marker exactly on the
+		// ends whose residues were cut off and keeps its own
+		if !wrap {
+			wantR := map[string]int{}
+			for _, f := range s.Features() {
+				rg, ok := f.Loc.(gts.Ranged)
+				if !ok || f.Key == "source" {
+					continue
+				}
+				lo, hi := rg.Start, rg.End
+				if lo < aa {
+					lo = aa
+				}
+				if hi > bb {
+					hi = bb
+				}
+				if lo >= hi {
+					continue
+				}
+				w := gts.Ranged{Start: lo - aa, End: hi - aa, Partial: gts.Partial{Partial5: rg.Partial.Partial5 || rg.Start < aa, Partial3: rg.Partial.Partial3 || rg.End > bb}}
+				wantR[featKey(f)+encLoc(w)]++
+				r.count("seq.slice/range-markers")
+			}
+			for _, g := range res.Features() {
+				wantR[featKey(g)+encLoc(g.Loc)]--
+			}
+			for k, v := range wantR {
+				if v > 0 {
+					r.fail(Failure{Oracle: "slice: a range is clipped to the window and partial exactly at the ends that were cut off (or were partial)", Op: line,
+						Got: fmt.Sprintf("%s missing %d", k, v)})
+					break
+				}
+			}
+		}
 		for k, v := range wantD {
 			if v > 0 {
 				g := ""
@@ -640,6 +686,16 @@ func propC03(r *Run) {
 			}
 		}
 	}
+}
+
+// anyPartial: some leaf of the location carries a partial marker
+func anyPartial(l gts.Location) bool {
+	for _, u := range leaves(l) {
+		if rg, ok := u.(gts.Ranged); ok && (rg.Partial.Partial5 || rg.Partial.Partial3) {
+			return true
+		}
+	}
+	return false
 }
 
 // --- C04 --------------------------------------------------------------------
